@@ -135,6 +135,15 @@ class K(icontract.DBC):
         GATES.tgate(tag, "body")
         return tag
 
+    def tspawn_fail(self, tag):
+        """Lets the harness copy the context / schedule work from its body and then ends abnormally."""
+        GATES.spawn(tag)
+        raise RuntimeError("body failed: " + tag)
+
+    async def aspawn_fail(self, tag):
+        GATES.spawn(tag)
+        raise RuntimeError("body failed: " + tag)
+
     def repair(self, tag):
         self.ok = True
         return tag
@@ -704,7 +713,77 @@ def explore_histories(w, mod: Any, gates: Gates, tries: int) -> None:
 
         contextvars.Context().run(asyncio.run, main())
 
-    for hist in (history_thread, history_task, history_callbacks):
+    # (4) the same, but the call during which the context was copied ends ABNORMALLY (body raises / invariant violated)
+    def history_after_failed_call() -> None:
+        async def main() -> None:
+            loop = asyncio.get_running_loop()
+            for how in ("body-raises", "invariant-violated"):
+                o = contextvars.Context().run(mod.K, "o1")
+                box = {}
+                done = loop.create_future()
+
+                def later() -> None:
+                    o.ok = True
+                    box["got"] = verdict(o.tbreak, "b")
+                    done.set_result(None)
+
+                def first() -> None:
+                    gates.spawner = lambda tag: loop.call_soon(later)
+                    try:
+                        if how == "body-raises":
+                            o.tspawn_fail("a")
+                        else:
+                            o.ok = False  # the check before the call fails: ...
+                            gates.spawner = None
+                            loop.call_soon(later)  # (the copy is taken by the caller in this variant)
+                            o.thold("a")
+                    except BaseException:  # pylint: disable=broad-except
+                        pass
+                    finally:
+                        gates.spawner = None
+
+                loop.call_soon(first)
+                await done
+                judge("callback-scheduled-from-a-call-that-failed-" + how, box.get("got", "<no result>"), "inv:o1", {})
+
+        contextvars.Context().run(asyncio.run, main())
+
+        # a context copied inside a method that raises, used by later threads (recycled thread identifiers)
+        o = contextvars.Context().run(mod.K, "o1")
+        copies = []
+        gates.spawner = lambda tag: copies.append(contextvars.copy_context())
+
+        def failing() -> None:
+            try:
+                o.tspawn_fail("a")
+            except RuntimeError:
+                pass
+
+        t1 = threading.Thread(target=contextvars.Context().run, args=(failing,))
+        t1.start()
+        t1.join()
+        gates.spawner = None
+        ident1 = t1.ident
+        del t1
+        reused = 0
+        for _ in range(tries):
+            box = {}
+            o.ok = True
+
+            def work() -> None:
+                box["ident"] = threading.get_ident()
+                box["got"] = verdict(o.tbreak, "b")
+
+            t2 = threading.Thread(target=copies[0].run, args=(work,))
+            t2.start()
+            t2.join()
+            if box.get("ident") == ident1:
+                reused += 1
+            judge("context-copied-in-a-failed-call-used-by-a-later-thread", box.get("got", "<no result>"), "inv:o1",
+                  {"thread_ident_recycled": box.get("ident") == ident1})
+        w.count("histories_with_recycled_thread_ident", reused)
+
+    for hist in (history_thread, history_task, history_callbacks, history_after_failed_call):
         try:
             hist()
         finally:
